@@ -1,6 +1,8 @@
 SPECIFICATION Spec
 CONSTANTS
-  Cases <- S_Cases
+  Subs <- S_Subs
+  HostClasses <- MCHostClasses
+  HostOf <- MCHostOf
   Export = FALSE
   Dev_S27_Ipv6JoinLiteral = TRUE
   Dev_S28_PortZero = FALSE
